@@ -229,7 +229,7 @@ pub fn run(seed: u64, thorough: bool, out_dir: &Path, scratch: &Path) -> Out {
     cf.group("parts", "pcase", "check_pcase");
     let mut descs: BTreeMap<String, Vec<Value>> = BTreeMap::new();
     let ft = ckb_systemtime::faketime();
-    let n_hist = hx_common::shard_share(if thorough { 12 } else { 2 });
+    let n_hist = hx_common::shard_share(if thorough { 8 } else { 2 });
     for hi in 0..n_hist {
         let cfg = ChainCfg { window: *rng.pick(&[(1u64, 2u64), (2, 4)]), genesis_epoch_length: *rng.pick(&[3u64, 4, 5]), ..Default::default() };
         let dir = scratch.join(format!("n{hi}"));
@@ -351,7 +351,7 @@ pub fn run(seed: u64, thorough: bool, out_dir: &Path, scratch: &Path) -> Out {
         *out.stats.entry("freezer_write_points".into()).or_default() += n_fz;
         let mut points: Vec<(&str, u64)> = vec![];
         for p in 1..=n_db { points.push(("VERIF_CRASH_AT", p)); }
-        let max_fz = if thorough { 120 } else { 15 };
+        let max_fz = if thorough { 60 } else { 15 };
         if n_fz <= max_fz { for p in 1..=n_fz { points.push(("VERIF_FREEZER_CRASH_AT", p)); } }
         else {
             let mut keep = BTreeSet::new();
